@@ -33,3 +33,21 @@ TABLE.update({
          "level": "Exploration: 14 aggregators + quantile levels on random 1-4-d arrays along every axis; -T/-Tagg/-Tx on generated text/NetCDF inputs with irregular grids, cell-by-cell against the window (l-h, l] of the same series, members / ensemble probabilities / ensemble quantiles included, csv end-to-end.",
          "note": TB + "; float32 tolerance for pre-aggregated values", "design": "DESIGN.md 4/C15"},
 })
+
+TABLE.update({
+ "C02": {"technique": "runtime monitoring: cell-by-coordinate comparison with the generating dictionary; metamorphic permutation pairs (rows, columns, NetCDF dimension entries, file order) with byte comparison of csv",
+         "level": "Exploration: generated 2-4 input families stored in mutually different orders; every cell of get_scores(All) against the file's own value at those coordinates; a battery of csv commands must be byte-identical after permuting inside the files; all <=24 file orders must only permute columns.",
+         "note": TB, "design": "DESIGN.md 4/C02"},
+ "C03": {"technique": "runtime monitoring: reference selection model for the nine subsetting options; invariants on Data dimensions; outcome classification for empty selections",
+         "level": "Exploration: ~670 (quick) / ~18000 (thorough) option sets with hostile value classes (absent values, inclusive end points on station coordinates, reversed ranges, empty selections) observed through --list-*, Data attributes and csv descriptors/counts.",
+         "note": TB, "design": "DESIGN.md 4/C03"},
+ "C04": {"technique": "runtime monitoring: metamorphic mark-missing vs delete pairs through the real readers for every metric and encoding; no-valid-case => NaN monitor; get_scores post-condition contract",
+         "level": "Exploration: each pair writes one dataset twice (cases marked missing in one of 12 encodings vs rows deleted) and compares csv row by row for a metric that uses the field (all ~70 metrics over time), incl. whole slices / whole inputs missing and climatology zeros/missing; an icontract post-condition on Data.get_scores (no NaN/inf in a non-empty result) runs under an ambient CLI workload.",
+         "note": TB, "design": "DESIGN.md 4/C04"},
+ "C09": {"technique": "runtime monitoring: generated well-formed text files read by the real reader and compared cell by cell with the generating dictionary",
+         "level": "Exploration: 640 (quick) / 20000 (thorough) files over column subsets/orders/spellings, separators, row orders, sparsity, missing tokens, comment and metadata lines; every attribute and every cell compared.",
+         "note": TB, "design": "DESIGN.md 4/C09"},
+ "C10": {"technique": "runtime monitoring: differential comparison of the two real readers on one dictionary, score equality via CLI, text2nc subprocess output read back with netCDF4, type-detection probes",
+         "level": "Exploration: generated datasets written as text and NetCDF (optional variables present/absent, five missing encodings, shuffled dimension entries); readers compared by coordinates and with the dictionary; csv scores must be identical; text2nc outputs compared at float32 precision.",
+         "note": TB, "design": "DESIGN.md 4/C10"},
+})
